@@ -38,7 +38,7 @@ Cluster0 == [alive |-> {}, leader |-> << >>, coord |-> 0, txn |-> 0, ctrlr |-> 0
 VTab == << >>
 CRange == << >>
 Menu == << >>
-MoveKinds == {"leader", "add", "remove", "topic", "coord", "txn", "ctrlr"}
+MoveKinds == {"leader", "add", "addr", "remove", "topic", "coord", "txn", "ctrlr"}
 MaxMoves == 1000000
 MaxCancels == 1000000
 MaxCuts == 1000000
@@ -49,15 +49,15 @@ Hist == TRUE
 AnyConnId == TRUE
 Bug == "none"
 
-VARIABLES cl, moves, snaps, pool, disc, conns, rq, sent, served, budget, cf, l, dialTo, replied, wrote, plan, over
+VARIABLES cl, moves, snaps, pool, disc, conns, rq, sent, served, budget, cf, l, dialTo, replied, wrote, plan, over, eps
 M == INSTANCE Transport
 mvars == <<cl, moves, snaps, pool, disc, conns, rq, sent, served, budget, cf>>
-tvars == <<cl, moves, snaps, pool, disc, conns, rq, sent, served, budget, cf, l, dialTo, replied, wrote, plan, over>>
+tvars == <<cl, moves, snaps, pool, disc, conns, rq, sent, served, budget, cf, l, dialTo, replied, wrote, plan, over, eps>>
 
 Range(s) == { s[i] : i \in DOMAIN s }
 TPs == { <<t, p>> : t \in Topics, p \in 0 .. NParts - 1 }
 
-TInit == M!Init /\ l = 1 /\ dialTo = << >> /\ replied = {} /\ wrote = {} /\ plan = << >> /\ over = TRUE
+TInit == M!Init /\ l = 1 /\ dialTo = << >> /\ replied = {} /\ wrote = {} /\ plan = << >> /\ over = TRUE /\ eps = << >>
 
 VT(v) == [ b \in { v[i].b : i \in DOMAIN v } |->
             LET apis == v[CHOOSE i \in DOMAIN v : v[i].b = b].apis IN
@@ -69,20 +69,23 @@ LeadersOf(ts, t, p) ==
   IF T = {} THEN 0 ELSE LET ls == ts[CHOOSE i \in T : TRUE].leaders IN IF p + 1 \in DOMAIN ls THEN ls[p + 1] ELSE 0
 
 Reset(e) ==
-  /\ cl' = [alive |-> Range(e.alive), coord |-> e.coord, txn |-> e.txn, ctrlr |-> e.ctrlr, ver |-> 1,
+  /\ cl' = [alive |-> Range(e.alive), coord |-> e.coord, txn |-> e.txn, ctrlr |-> e.ctrlr, ver |-> 1, addr |-> [b \in Brokers |-> 1],
             topics |-> { e.topics[i].name : i \in DOMAIN e.topics },
             leader |-> [tp \in TPs |-> LeadersOf(e.topics, tp[1], tp[2])]]
   /\ cf' = [boot |-> Range(e.boot), vtab |-> VT(e.vtab), crange |-> CR(e.crange),
             mt |-> [on |-> e.metaFiltered, names |-> Range(e.metaTopics)]]
   /\ moves' = << >> /\ snaps' = << >>
-  /\ pool' = [ready |-> FALSE, err |-> FALSE, base |-> 0, groups |-> {}, idle |-> [g \in {0} \cup Brokers |-> << >>]]
+  /\ pool' = M!NoPool
   /\ disc' = M!NoDisc
   /\ conns' = [c \in 1 .. MaxConns |-> M!NoConn]
   /\ rq' = [r \in Reqs |-> M!NoReq]
   /\ sent' = << >> /\ served' = << >> /\ budget' = M!NoBudget
-  /\ dialTo' = << >> /\ replied' = {} /\ wrote' = {} /\ plan' = e.ops /\ over' = FALSE
+  /\ dialTo' = << >> /\ replied' = {} /\ wrote' = {} /\ plan' = e.ops /\ over' = FALSE /\ eps' = << >>
 
-Keep == UNCHANGED <<dialTo, replied, wrote, plan, over>>
+\* the address (host:port) behind generation g of broker b's address: what the journal's move events said
+EpOf(b, g) == IF <<b, g>> \in DOMAIN eps THEN eps[<<b, g>>] ELSE "b" \o ToString(b) \o ":9092"
+
+Keep == UNCHANGED <<dialTo, replied, wrote, plan, over, eps>>
 Skip == UNCHANGED mvars /\ Keep
 Fr == UNCHANGED cf
 
@@ -121,7 +124,8 @@ Window == l .. (IF Len(Trace) < l + 150 THEN Len(Trace) ELSE l + 150)
 \* (several decisions for the same group may be pending: their dials can come in either order)
 DialsFor(g) ==
   LET K == { k \in Window : /\ Trace[k].ev = "dial" /\ Trace[k].ok /\ conns[Trace[k].conn].st = "none"
-                            /\ IF g = 0 THEN Trace[k].broker \in cf.boot ELSE Trace[k].broker = g }
+                            /\ IF g = 0 THEN Trace[k].broker \in cf.boot
+                                        ELSE Trace[k].broker = g /\ Trace[k].ep = EpOf(g, pool.gaddr[g]) }
       first == IF K = {} THEN 0 ELSE CHOOSE k \in K : \A j \in K : k <= j IN
   \* the first one, and any other that follows it before the first one's connection is used
   { k \in K : k <= first + 12 }
@@ -132,9 +136,10 @@ Refused(g) ==
 DialEv(e) ==
   IF e.ok
     THEN /\ e.conn \in DOMAIN conns /\ conns[e.conn].st = "connecting" /\ e.conn \notin DOMAIN dialTo
-         /\ IF conns[e.conn].grp = 0 THEN e.broker \in cf.boot ELSE conns[e.conn].grp = e.broker
+         /\ IF conns[e.conn].grp = 0 THEN e.broker \in cf.boot
+               ELSE conns[e.conn].grp = e.broker /\ e.ep = EpOf(e.broker, conns[e.conn].ep)
          /\ dialTo' = (e.conn :> e.broker) @@ dialTo
-         /\ UNCHANGED mvars /\ UNCHANGED <<replied, wrote, plan, over>>
+         /\ UNCHANGED mvars /\ UNCHANGED <<replied, wrote, plan, over, eps>>
     ELSE Skip      \* refused: the leg fails (silent RouteConnectRefused), or the next bootstrap address is tried
 
 \* the next request frame the journal shows on connection c (from the current line on): the hand-over of a
@@ -151,7 +156,7 @@ CWriteEv(e) ==
   ELSE /\ conns[c].st = "busy" /\ M!LegsR(conns[c].cur[1])[conns[c].cur[2]].api = e.api
        /\ conns[c].reqq # << >>
        /\ wrote' = wrote \cup {c}
-       /\ UNCHANGED mvars /\ UNCHANGED <<dialTo, replied, plan, over>>
+       /\ UNCHANGED mvars /\ UNCHANGED <<dialTo, replied, plan, over, eps>>
 
 \* a broker received a request: it is the broker the model's connection leads to, the leg is the one the
 \* connection carries, the version is the negotiated one
@@ -169,6 +174,7 @@ ReqEv(e) ==
 \* what the broker answered to a metadata request is the model's view of the cluster
 SameView(e, v) ==
   /\ Range(e.alive) = v.alive /\ e.ctrlr = v.ctrlr
+  /\ \A i \in DOMAIN e.addrs : e.addrs[i].ep = EpOf(e.addrs[i].b, v.addr[e.addrs[i].b])
   /\ { e.topics[i].name : i \in DOMAIN e.topics } = v.topics
   /\ \A i \in DOMAIN e.topics : \A p \in DOMAIN e.topics[i].leaders : e.topics[i].leaders[p] = v.leader[<<e.topics[i].name, p - 1>>]
 
@@ -176,13 +182,18 @@ ReplyEv(e) ==
   LET c == e.conn  failed == e.closed \/ e.cut >= 0 IN
   IF e.api = "ApiVersions"
     THEN IF failed THEN M!ConnectFail(c) /\ Fr /\ Keep
-         ELSE replied' = replied \cup {c} /\ UNCHANGED mvars /\ UNCHANGED <<dialTo, wrote, plan, over>>
+         ELSE replied' = replied \cup {c} /\ UNCHANGED mvars /\ UNCHANGED <<dialTo, wrote, plan, over, eps>>
     ELSE IF failed THEN (IF conns[c].cut THEN Skip ELSE M!Cut(c) /\ Fr /\ Keep)
     ELSE /\ e.api = "Metadata" => (conns[c].wire # << >> /\ SameView(e, conns[c].wire[Len(conns[c].wire)].meta))
          /\ replied' = replied \cup {c}
-         /\ UNCHANGED mvars /\ UNCHANGED <<dialTo, wrote, plan, over>>
+         /\ UNCHANGED mvars /\ UNCHANGED <<dialTo, wrote, plan, over, eps>>
 
 MoveEv(e) ==
+  IF e.kind = "readdress" /\ e.addrChanged
+    THEN /\ M!Readdress(e.b) /\ Fr
+         /\ eps' = (<<e.b, cl.addr[e.b] + 1>> :> e.ep) @@ eps
+         /\ UNCHANGED <<dialTo, replied, wrote, plan, over>>
+  ELSE
   /\ CASE e.kind = "leader" -> IF cl.leader[<<e.t, e.p>>] = e.to THEN UNCHANGED mvars ELSE M!LeaderMove(<<e.t, e.p>>, e.to) /\ Fr
        [] e.kind = "brokeradd" -> M!BrokerAdd(e.b) /\ Fr
        [] e.kind = "brokerremove" -> M!BrokerRemove(e.b, e.h) /\ Fr
@@ -235,11 +246,14 @@ Step(e) ==
          [] e.ev = "cwrite" -> CWriteEv(e)
          [] e.ev = "req" -> ReqEv(e)
          [] e.ev = "reply" -> ReplyEv(e)
+         \* (a broker that re-registers under another id keeps its host name: the journal's dial events cannot be
+         \* attributed to the new id; the rest of such a journal is left to the monitor)
+         [] e.ev = "move" /\ e.kind = "renumber" -> UNCHANGED mvars /\ over' = TRUE /\ UNCHANGED <<dialTo, replied, wrote, plan, eps>>
          [] e.ev = "move" -> MoveEv(e)
          [] e.ev = "opend" -> EndEv(e)
          [] e.ev = "closeidle" -> M!CloseIdle /\ Fr /\ Keep
          [] e.ev = "cclose" -> CCloseEv(e)
-         [] e.ev = "end" -> UNCHANGED mvars /\ over' = TRUE /\ UNCHANGED <<dialTo, replied, wrote, plan>>
+         [] e.ev = "end" -> UNCHANGED mvars /\ over' = TRUE /\ UNCHANGED <<dialTo, replied, wrote, plan, eps>>
          [] OTHER -> Skip
 
 \* Steps of the model that leave no mark in the journal.
@@ -275,7 +289,7 @@ Floating ==
 SilentFrame ==
   /\ replied' = { c \in replied : conns'[c].st = "connecting" \/ (conns'[c].st = "busy" /\ conns'[c].wire # << >>) }
   /\ wrote' = { c \in wrote : conns'[c].st = "busy" }
-  /\ Fr /\ UNCHANGED <<l, dialTo, plan, over>>
+  /\ Fr /\ UNCHANGED <<l, dialTo, plan, over, eps>>
 
 TNext ==
   IF ~over /\ l <= Len(Trace) /\ Trace[l].ev # "cfg" /\ ENABLED Urgent
